@@ -92,8 +92,23 @@ def float_leaves(v, out):
     return out
 
 
+_R32_CACHE = {}
+_R32_CONN = []
+
+
+def duck_real(x: float) -> float:
+    """what DuckDB's CAST of the DECIMAL numeral repr(x) to REAL yields, as a double (observed on a raw connection;
+    it is NOT always the nearest float32)"""
+    if x not in _R32_CACHE:
+        if not _R32_CONN:
+            import duckdb
+            _R32_CONN.append(duckdb.connect())
+        _R32_CACHE[x] = _R32_CONN[0].execute(f"SELECT CAST(CAST({x!r} AS REAL) AS DOUBLE)").fetchall()[0][0]
+    return _R32_CACHE[x]
+
+
 def r32_table(vals) -> str:
-    """float32 rounding of the finite floats of a column that also holds a NaN (IEEE fact, computed by CPython)"""
+    """REAL rounding of the finite floats (written without exponent) of a column that also holds a NaN"""
     fl = float_leaves(list(vals), [])
     if not any(math.isnan(x) for x in fl):
         return "[]"
@@ -102,10 +117,7 @@ def r32_table(vals) -> str:
         if math.isnan(x) or math.isinf(x) or "e" in repr(x + 0.0):
             continue
         x = x + 0.0
-        try:
-            y = struct.unpack("<f", struct.pack("<f", x))[0]
-        except OverflowError:
-            continue
+        y = duck_real(x)
         b = struct.unpack("<q", struct.pack("<d", x))[0]
         b2 = struct.unpack("<q", struct.pack("<d", y))[0]
         ent[b] = f"(({b})%Z, (({b2})%Z, {'true' if 'e' in repr(y) else 'false'}))"
@@ -709,7 +721,7 @@ def run(ctx: core.Ctx):
     ctx.log(f"(b) lit(): {n_lit} select statements; {len(cell_items)} distinct columns in total")
 
     # ---- evaluate the columns in Coq
-    res = ctx.cases("c09_cell", H_CELL, cell_items, per_file=max(40, len(cell_items) // 14 + 1), result_ty="str")
+    res = ctx.cases("c09_cell", H_CELL, cell_items, per_file=shard_size(cell_items), result_ty="str")
     n_eval += len(cell_items)
     n_dom = n_cells = 0
     model_fail, dom_fail = [], []
@@ -801,7 +813,7 @@ def run(ctx: core.Ctx):
     ctx.log(f"(e) {n_where} where() queries")
 
     # ---- (c) statements
-    res = ctx.cases("c09_stmt", H_STMT, stmt_items, per_file=max(12, len(stmt_items) // 14 + 1), result_ty="str")
+    res = ctx.cases("c09_stmt", H_STMT, stmt_items, per_file=shard_size(stmt_items), result_ty="str")
     n_eval += len(stmt_items)
     n_cert = 0
     for m, x in zip(stmt_meta, res):
@@ -866,6 +878,14 @@ def run(ctx: core.Ctx):
     ]
     ctx.trusted += ["translate/c09_facts.py (fail-closed ast translator; branch bodies recognised up to alpha-renaming)",
                     "checks/c09.py encoders py2coq/armour (Python value -> Coq term) and the DB-API proxy that records statement texts"]
+
+
+def shard_size(items, budget=300_000):
+    """cases per Coq file: about 14 shards, but never more than ~300 kB of terms in one file (coqc's stack)"""
+    if not items:
+        return 1
+    avg = sum(len(x) for x in items) / len(items)
+    return max(4, min(len(items) // 14 + 1, int(budget / max(1.0, avg))))
 
 
 def one_clean(one):
